@@ -350,8 +350,8 @@ Proof.
   unfold priqInsert, inv, argc in *. cbn [argv size].
   pose proof (Permutation_length P) as L. cbn [length] in L.
   destruct (size q =? Z.of_nat (length (argv q))) eqn:E.
-  - repeat split; try assumption; try lia. right. reflexivity.
-  - repeat split; try assumption; try lia. left. reflexivity.
+  - repeat split; try assumption; lia.
+  - repeat split; try assumption; lia.
 Qed.
 
 Lemma priqExtractMin_spec : forall q, inv q -> argv q <> [] ->
